@@ -1010,6 +1010,24 @@ def check_C15(ctx):
         if bad and nb < 3:
             nb += 1
             relation_violation(ctx, 'C15_truth', {'case': l, 'implementation': o, 'explanation': bad})
+    # the same truth predicates in the option builds (each option alone): a reason must hold of the input whatever the build accepts or refuses
+    oaddrs = sorted(set([b'u@' + d for d in gens.dom_class(5 if ctx.thorough() else 4)] + [b'u@' + d for d in sub(ctx, gens.dom_boundary(chars=(b'_', b'x', b'-', b'7')), 5)] +
+                        [bytes.fromhex(l.split()[1]) + b'@b.ru' for l in gens.local_class(4, alpha=gens.LOCAL_ALPHA + [b'~', b'{', b'_']) if l.split()[1] != '-'] +
+                        [b'u@1_2', b'u@1_2.34', b'u@10_0_0_1', b'u@_', b'u@_._', b'u@a_.b', b'u@_a.b', b'u@1._', b'u@12._3', b'u@a.b_c', b'u@-_.a']))
+    oel = gens.e_lines(oaddrs, vlib.idn_oracle(gens.domains_of(oaddrs)), modes=(1, 2, 3), tlds=(0, 1))
+    for kw in ({'uscore': True}, {'rfc20': True}, {'f5322': True}):
+        ol = ctx.snap.lib(**kw)
+        c_o, _ = vlib.run_both(ol, ctx.snap, oel)
+        ctx.rep.add_cases('truth(option build %s)' % ','.join(kw), oel, c_o, lambda ln, o: not o.startswith('0 '), note='code_truth on implementation outputs of the option build')
+        nbo = 0
+        for l, o in zip(oel, c_o):
+            f = l.split(' '); rc = o.split(' ')[0]
+            a = bytes.fromhex(f[3]) if f[3] != '-' else b''
+            if f[1] == '3' and any(c > 0x7f for c in a[a.rfind(b'@') + 1:]): continue      # needs the IDN answer: not part of this family
+            bad = code_truth(rc, int(f[1]), f[2] == '1', a, int(f[4]), bytes.fromhex(f[5]) if f[5] != '-' else b'', tldset)
+            if bad and nbo < 2 and nb < 6:
+                nbo += 1; nb += 1
+                relation_violation(ctx, 'C15_truth', {'case': l, 'build': kw, 'implementation': o, 'explanation': bad})
     c_a, _ = vlib.run_both(lib, ctx.snap, al)
     for l, o in zip(al, c_a):
         ops = l.split(' ')[1:]
